@@ -74,12 +74,6 @@ package statuschecker
 //@   modifies nothing
 //@ extern github.com/agglayer/aggkit/aggsender/metrics.InError ()
 //@   modifies nothing
-//@ extern time.Now ()
-//@   modifies nothing
-//@ extern (time.Time).UTC (t)
-//@   modifies nothing
-//@ extern (time.Time).Unix (t)
-//@   modifies nothing
 
 // one certificate: the local record takes the Agglayer's status, and the store is written exactly when it differs
 //@ func (c *certStatusChecker) updateCertificateStatus
